@@ -2,11 +2,22 @@
 
 pub mod bytecode;
 pub mod common;
+pub mod judge;
+pub mod lang;
+pub mod lang2;
+pub mod source;
 
 use super::{Ctx, Report};
 
 pub fn dispatch(ctx: &Ctx, rep: &mut Report) -> bool {
     match ctx.check.as_str() {
+        "C01" => source::c01(ctx, rep),
+        "C12" => source::c12(ctx, rep),
+        "C09" => lang::c09(ctx, rep),
+        "C13" => lang::c13(ctx, rep),
+        "C15" => lang::c15(ctx, rep),
+        "C14" => lang2::c14(ctx, rep),
+        "C07" => lang2::c07(ctx, rep),
         "C02" => bytecode::c02(ctx, rep),
         "C03" => bytecode::c03(ctx, rep),
         "C04" => bytecode::c04(ctx, rep),
